@@ -137,6 +137,42 @@ PROPS = {
                      'Postgres 32-bit columns are outside the model'],
         trusted_base=['Model/Json.lean is validated against encoding/json by codecdiff'],
     ),
+    'C18': dict(
+        modules=['Resonate.Properties.C18'],
+        tie_filter=r'^$',
+        harness=[dict(bin='polldiff', name='polldiff', quick=['-scripts', '60', '-steps', '40', '-hostile'], thorough=['-scripts', '1500', '-steps', '60', '-hostile'],
+                      search=['-scripts', '600', '-steps', '60', '-hostile'], divergence_is_violation=False)],
+        rule='polldiff: offline-generated scripts of connect / disconnect / reconnect (same group+id) / send (invoke and notify; addressed id present, absent, empty, unknown; '
+             'addresses as the sender writes them plus case-variant keys, duplicate keys, extra keys, wrong types, truncated JSON and the literal null) / client read / shutdown, '
+             'over 3 groups x 4 ids, limits 0..100 and buffers 0..3, run against the REAL PollWorker.Start loop (registry add/rmv/get, Process, shutdown branch) through the verif hook '
+             'over harness-owned unbuffered channels, in a child process per script; after every step the registry size and every buffer level are compared with the Lean model '
+             '(Model/Poll.step); for a send the observed receiver is passed to the model, which must be able to produce it for SOME value of the random pick; at the end every client '
+             'stream and the set of closed channels are compared; direct C18 monitors on the implementation: Done called exactly once, reported delivered iff exactly one stream grew by one, '
+             'receiver in the addressed group, notifications only to the exact id; a crash of the worker is a violation; non-trivial = delivered sends + closes + refusals at the limit (counted)',
+        assumptions=['operations are serialised by the single worker goroutine (this is the mechanism of the code: all registry changes and sends happen there)',
+                     'each HTTP poll request makes one connection object and asks for it to be registered once'],
+        trusted_base=['the HTTP handler around the worker (SSE framing, request context) is not modelled: `read` stands for one iteration of its loop',
+                      'Model/Poll.decodeData covers flat JSON objects with string values, the literal null and undecodable text; other shapes are outside the generator',
+                      'build-tag verif hook internal/app/plugins/poll/verif_hooks.go (constructs the worker with harness-owned channels; adds no behaviour)'],
+    ),
+    'C19': dict(
+        modules=['Resonate.Properties.C19'],
+        tie_filter=r'^$',
+        harness=[dict(bin='routesend', name='routesend', quick=['-cases', '1500'], thorough=['-cases', '40000'], search=['-cases', '10000'])],
+        rule='routesend: cases = routing tag (23 plain strings / URLs incl. odd schemes, escapes, IPv6, spaces, markup; 30 JSON values of every shape: receiver objects with and without data, '
+             'null data, unknown / case-variant / duplicate keys, non-string type, arrays, numbers, literals, invalid numbers, trailing commas) or raw stored bytes (16 shapes incl. null) '
+             'x 5 target tables (none, default overridden, a target whose NAME is a URL, duplicate names, unknown plugin type) x 6 plugin sets x {invoke, resume, notify} x transport answer '
+             '{success, failure, error, queue full}; the REAL router worker decides and marshals, the REAL SenderWorker.Process (verif hook) resolves and hands to capturing transports; '
+             'compared with the Lean model (Resolve.routeTag / recvBytes / dispatch, url.Parse results supplied by the harness): match decision, stored bytes, transport, address bytes; '
+             'direct checks: exactly one completion per submission, completion mirrors the transport answer, nothing handed when the address does not resolve, body names the task id / counter / '
+             'three links or the completed promise; messages for the http transport additionally go through the REAL http plugin (queue, worker goroutine) with a stub RoundTripper: '
+             'POST to the addressed URL with the body and headers, success iff 200; non-trivial = routed + handed (counted)',
+        assumptions=['url.Parse / URL.String of the Go standard library are taken as given (their results are inputs of the model)',
+                     'one routing source: the resonate:invoke tag (the default configuration)'],
+        trusted_base=['Model/JsonScan.lean (JSON scanner, json.Valid, compact with HTML escaping) and Model/Resolve.recvFields are validated against encoding/json by routesend on the generator\'s shapes only',
+                      'build-tag verif hook internal/app/subsystems/aio/sender/verif_hooks.go (exposes the worker; adds no behaviour)',
+                      'the body is checked field by field on the real bytes, not modelled byte for byte'],
+    ),
     'C14': dict(
         modules=['Resonate.Properties.C14'],
         tie_filter=r'(promise|schedule)(Search|Insert|Update|Delete|Select)|shape|wiring|uniques',
